@@ -21,17 +21,19 @@ SpecFails(e) ==
   \cup (IF \E r \in rows : o.data_after[r] # Scaled(e.data[r]) THEN {"DataUntouched|original_data"} ELSE {})
 \* position (0-based) of value v in the distinct-valued series x
 IdxOf(x, v) == (CHOOSE t \in 1..Len(x) : x[t] = v) - 1
-TwinFails(e) ==
-  LET o == e.obs
-      X == Embed(e.x, e.dim, 1)
+\* one series x of the object with its recorded twins and surrogate
+TwinFailsOf(e, x, twins, surr, row) ==
+  LET X == Embed(x, e.dim, 1)
       R == RecS(X, 8)
       tw == Twins(R, e.md)
       n == Len(X)
-  IN (IF o.twins # tw THEN {"TwinsDef|twins"} ELSE {})
-     \cup (IF Len(o.surr) # n \/ \E j \in 1..Len(o.surr) : ~(\E t \in 1..Len(e.x) : e.x[t] = o.surr[j])
-           THEN {"OriginalStates|twin_surrogates"}
-           ELSE IF ~TwinWalk(tw, n, [j \in 1..Len(o.surr) |-> IdxOf(e.x, o.surr[j])])
-                THEN {"TwinWalk|twin_surrogates"} ELSE {})
+  IN (IF twins # tw THEN {"TwinsDef|twins" \o row} ELSE {})
+     \cup (IF Len(surr) # n \/ \E j \in 1..Len(surr) : ~(\E t \in 1..Len(x) : x[t] = surr[j])
+           THEN {"OriginalStates|twin_surrogates" \o row}
+           ELSE IF ~TwinWalk(tw, n, [j \in 1..Len(surr) |-> IdxOf(x, surr[j])])
+                THEN {"TwinWalk|twin_surrogates" \o row} ELSE {})
+TwinFails(e) == TwinFailsOf(e, e.x, e.obs.twins, e.obs.surr, "")
+                \cup TwinFailsOf(e, e.x2, e.obs.twins2, e.obs.surr2, "[row 1]")
 Verdict(e) ==
   LET tags == e.blk \o (IF e.blk = "spec" THEN (IF ZeroAmplitude(e) THEN ",zero_amplitude" ELSE "") \o ",n" \o ToString(e.n) \o ",k" \o ToString(e.k)
                         ELSE ",dim" \o ToString(e.dim) \o ",md" \o ToString(e.md)) IN
